@@ -62,6 +62,8 @@ var ExtraFields = []string{"User.email", "User.age", "User.secret", "User.device
 // Root fields; each is assigned to exactly one service.
 var RootFields = []string{"users", "user", "devices", "everyone", "admins", "nobody", "noUsers"}
 
+// "boom" is an optional failing root field (only registered when the assignment names it).
+
 // Assignment maps every extra and root field to a service name.
 type Assignment map[string]string
 
@@ -155,6 +157,9 @@ func Build(d *Data, a Assignment, service string) *schemabuilder.Schema {
 	}
 	if has("devices") {
 		q.FieldFunc("devices", func() []*Device { return d.Devices })
+	}
+	if !mono && a["boom"] == service {
+		q.FieldFunc("boom", func() (int64, error) { return 0, fmt.Errorf("boom") })
 	}
 	if has("admins") {
 		q.FieldFunc("admins", func() []*Admin { return d.Admins })
